@@ -71,7 +71,8 @@ Proof.
     apply andb_true_iff in Hc as [H1 H2]. apply negb_true_iff in H1, H2.
     unfold step. cbn [take qc]. rewrite H2. cbn [orb andb].
     replace ((cBT =? cRB) || (cBT =? cBT) || (cBT =? cPCT)) with true by reflexivity. rewrite H1. cbn [andb].
-    replace ((cBT =? cRB) || (cBT =? cRP) || (cBT =? cRS)) with false by reflexivity. rewrite andb_false_r. cbn [app].
+    replace ((cBT =? cRB) || (cBT =? cRP) || (cBT =? cRS)) with false by reflexivity. rewrite andb_false_r.
+    replace (cBT =? cRB) with false by reflexivity. rewrite andb_false_r. cbn [app].
     unfold set_qc, set_cur, update. cbn [qc take cur out ttext tkind tstart tend name_tok].
     change {| ttext := acc ++ [c]; tkind := Some KName; tstart := Some a; tend := Some i |} with (name_tok (acc ++ [c]) a i).
     rewrite (IH (acc ++ [c]) a i (S i) o Hr). rewrite <- app_assoc. cbn [app].
